@@ -203,7 +203,8 @@ def cases(draw, funcs):
         p = pick(['(a|a)+$', '(a+)+$', '(a|aa)+$']) + '|' + pick(['(?:x|y)', '(?:xy|z)', '[xy]z']) * pick([100, 2000, 6000, 9000])
         pump, nn, tail = 'a', pick([30, 40, 45]), 'b'
         family = 'padded'
-    flags = pick(['', 'i', 'm', 's', 'ims', 'xyz', None, 'I'])
+    flags = pick(['', 'i', 'm', 's', 'ims', 'xyz', None, 'I', 'i', 'ims', 'i m s ' * 10 + 'x', 'i,m,s,' * 12 + '!', 'ims' * 3000, ' ' * 40 + 'i' + ' ' * 40 + '?',
+                  'I M S' * 9 + 'q'])
     return {'fn': pick(funcs), 'pattern': p, 'subject': [pump, nn, tail, rep], 'flags': flags, 'family': family}
 
 
